@@ -206,6 +206,57 @@ def decl_value(F, kind, vis):
     return ("struct", AST + "Spanned", {"node": node, "span": UNKNOWN})
 
 
+def filtered_by_predicate(F, f, pred_suffix):
+    """The only loop of `f` runs over `iter.filter(P)` where P is the predicate itself or a closure that returns
+    exactly its result: every element the loop body sees satisfied the predicate."""
+    from engines import derived_locals
+    filters = []
+    for bi, t in f.calls():
+        if not (callee_generic(t) or "").endswith("Iterator::filter") or len(t["args"]) < 2 or t["d"]["p"]:
+            continue
+        a = t["args"][1]
+        good = False
+        if "c" in a and pred_suffix in a.get("c", ""):
+            good = True                      # the function item itself
+        pl = op_place(a)
+        if pl is not None and not pl["p"]:
+            d = f.single_def(pl["l"])
+            if d and d[2] == "assign" and d[3]["r"] == "agg" and d[3].get("ak") == "closure":
+                c = F.fns.get(d[3]["def"])
+                if c is not None:
+                    calls = [(b2, t2) for b2, t2 in c.calls()]
+                    preds = [(b2, t2) for b2, t2 in calls if (callee_name(t2) or "").endswith(pred_suffix)]
+                    # the closure returns the predicate's result: the call writes _0 (or a temp copied into _0) and
+                    # no branch decides the result
+                    if len(preds) == 1 and not any(blk["term"]["t"] == "switch" for blk in c.blocks):
+                        dl = preds[0][1]["d"]["l"]
+                        good = dl == 0 or 0 in derived_locals(c, dl)
+            elif d and d[2] == "assign" and d[3]["r"] == "use" and pred_suffix in d[3]["o"].get("c", ""):
+                good = True
+        if good:
+            filters.append(t["d"]["l"])
+    if not filters:
+        return False
+    ok_locals = set()
+    for fl in filters:
+        ok_locals |= derived_locals(f, fl)
+    # into_iter(filtered) results are filtered too
+    changed = True
+    while changed:
+        changed = False
+        for bi, t in f.calls():
+            g = callee_generic(t) or ""
+            if (g.endswith("IntoIterator::into_iter") or g.endswith("Iterator::by_ref")) and t["args"] and \
+                    not t["d"]["p"] and t["d"]["l"] not in ok_locals:
+                pl = op_place(t["args"][0])
+                if pl is not None and pl["l"] in ok_locals:
+                    ok_locals |= derived_locals(f, t["d"]["l"])
+                    changed = True
+    nexts = [t for bi, t in f.calls() if (callee_generic(t) or "").endswith("Iterator::next")]
+    return bool(nexts) and all(op_place(t["args"][0]) is not None and op_place(t["args"][0])["l"] in ok_locals
+                               for t in nexts)
+
+
 def visfilter(F, rep):
     im = F.one_fn("TypeChecker::import_module")
     if rep.anchor("VISFILTER", "TypeChecker::import_module", im):
@@ -221,6 +272,8 @@ def visfilter(F, rep):
                     for (a, b) in bool_edges(im, t["d"]["l"], True):
                         dom |= blocks_dominated_by_edge(im, a, b)
             ok = all(c in dom for c in col)
+        if bool(col) and not ok:
+            ok = filtered_by_predicate(F, im, "is_public_decl")
         rep.oblige("VISFILTER", "import_module:collect-under-is_public", ok,
                    sample={"rule": "VISFILTER", "collect_sites": len(col), "dominated_by_is_public_decl": ok})
         if not ok:
